@@ -77,6 +77,8 @@ class Program:
         self.funcs: dict[str, Func] = {}
         self.classes: dict[str, Class] = {}
         self.node2func: dict[int, Func] = {}
+        self._alpha_ref: Optional[dict] = None
+        self.alpha_renamed = 0
         self._load()
 
     # ------------------------------------------------------------------ loading
@@ -101,7 +103,15 @@ class Program:
                     raise AnalysisError(f"cannot parse {path}: {err}") from err
                 mod = Module(rel, path, source, tree)
                 self.modules[rel] = mod
+                before = set(self.funcs)
                 self._index_module(mod)
+                if not os.environ.get("NGOSA_NO_ALPHA"):
+                    from . import alpha
+
+                    if self._alpha_ref is None:
+                        self._alpha_ref = alpha.load_ref()
+                    mine = {q: f.node for q, f in self.funcs.items() if q not in before}
+                    self.alpha_renamed += alpha.normalise(mine, self._alpha_ref, tree)
 
     def _index_module(self, mod: Module) -> None:
         assigned: dict[str, int] = {}
